@@ -29,6 +29,7 @@ type rInv struct {
 	Out   string `json:"out"` // err | panic | nil
 	Reset bool   `json:"reset,omitempty"`
 	Dur   int64  `json:"dur,omitempty"` // virtual ns the invocation lasts
+	Track bool   `json:"track,omitempty"` // controller only: the invocation enables output tracking before it ends
 }
 
 type c16Case struct {
@@ -61,7 +62,7 @@ func (p *restartProbe) Name() string                 { return "restarter" }
 func (p *restartProbe) Inputs() []controller.Input   { return nil }
 func (p *restartProbe) Outputs() []controller.Output { return nil }
 
-func (p *restartProbe) invoke(ctx context.Context, waitToken func() bool, reset func()) error {
+func (p *restartProbe) invoke(ctx context.Context, waitToken func() bool, reset func(), track func()) error {
 	p.mu.Lock()
 	i := p.calls
 	p.calls++
@@ -94,6 +95,10 @@ func (p *restartProbe) invoke(ctx context.Context, waitToken func() bool, reset 
 		reset()
 	}
 
+	if inv.Track && track != nil {
+		track()
+	}
+
 	p.mu.Lock()
 	p.ends = append(p.ends, time.Since(p.t0))
 	p.mu.Unlock()
@@ -119,7 +124,7 @@ func (p *restartProbe) Run(ctx context.Context, r controller.Runtime, _ *zap.Log
 		case <-ctx.Done():
 			return false
 		}
-	}, r.ResetRestartBackoff)
+	}, r.ResetRestartBackoff, r.StartTrackingOutputs)
 }
 
 type hookQ struct{ p *restartProbe }
@@ -130,7 +135,7 @@ func (h *hookQ) Settings() controller.QSettings {
 	return controller.QSettings{
 		Inputs: []controller.Input{{Namespace: "n1", Type: "T", Kind: controller.InputQPrimary}},
 		RunHook: func(ctx context.Context, _ *zap.Logger, _ controller.QRuntime) error {
-			return h.p.invoke(ctx, func() bool { return true }, nil)
+			return h.p.invoke(ctx, func() bool { return true }, nil, nil)
 		},
 	}
 }
@@ -148,7 +153,7 @@ type taskSpec struct{ p *restartProbe }
 func (s taskSpec) ID() string { return "t1" }
 
 func (s taskSpec) RunTask(ctx context.Context, _ *zap.Logger, _ int) error {
-	return s.p.invoke(ctx, func() bool { return true }, nil)
+	return s.p.invoke(ctx, func() bool { return true }, nil, nil)
 }
 
 // runRestartCase returns the gaps between the end of each failing invocation and the next start, and token flags.
@@ -504,6 +509,7 @@ func TestC16(t *testing.T) {
 	rep := newReport("C16", "real Runtime / task under synctest: (a) scripted run outcomes (error, panic, nil; ResetRestartBackoff; run durations around one minute) for a Controller, a run hook and a task - virtual restart times vs the model's backoff windows, and a pending reconcile after every restart; "+
 		"(b) an Errored watch event injected after n events: Run must return that error and no controller may reconcile afterwards; (c) cancellation at every k-th store call: Run returns nil, no write after it returned, no goroutine left in the bubble; "+
 		"(d) C05 quiescence monitor with one probe that always fails; non-trivial = a restart, reset or stop occurred; distinct by case")
+	rep.CorrIsSpec = true // the restart/backoff machine is the property's statement: a disagreeing script is a failing input
 
 	var cases []c16Case
 
@@ -531,7 +537,16 @@ func TestC16(t *testing.T) {
 
 		rec = func(prefix []rInv, depth int) {
 			if depth == 0 {
+				tracked := false
+				for _, i := range prefix {
+					tracked = tracked || i.Track
+				}
+
 				for _, kind := range []string{"controller", "hook", "task"} {
+					if tracked && kind != "controller" {
+						continue
+					}
+
 					s := append(append([]rInv(nil), prefix...), rInv{Out: "nil"})
 					cases = append(cases, c16Case{Kind: kind, Script: s})
 				}
@@ -539,7 +554,7 @@ func TestC16(t *testing.T) {
 				return
 			}
 
-			for _, o := range []rInv{{Out: "err"}, {Out: "panic"}, {Out: "err", Reset: true}, {Out: "err", Dur: 61e9}} {
+			for _, o := range []rInv{{Out: "err"}, {Out: "panic"}, {Out: "err", Reset: true}, {Out: "err", Dur: 61e9}, {Out: "panic", Track: true}, {Out: "err", Track: true}} {
 				rec(append(prefix, o), depth-1)
 			}
 		}
@@ -551,7 +566,7 @@ func TestC16(t *testing.T) {
 		for range tier(40, 1500) {
 			var s []rInv
 			for range 4 + r.intn(10) {
-				s = append(s, rInv{Out: pick(r, outs), Reset: r.chance(1, 5), Dur: pick(r, []int64{0, 0, 1e9, 59e9, 61e9, 120e9})})
+				s = append(s, rInv{Out: pick(r, outs), Reset: r.chance(1, 5), Dur: pick(r, []int64{0, 0, 1e9, 59e9, 61e9, 120e9}), Track: r.chance(1, 4)})
 			}
 
 			cases = append(cases, c16Case{Kind: pick(r, []string{"controller", "hook", "task"}), Script: s})
